@@ -3,7 +3,7 @@
 EXTRA_BUILDS = {}
 
 HOOK_COMMITS = ["7bc0d60"]
-FIX_COMMITS = ["243874c", "428186b", "52f0108", "243864d", "8c765f6", "203eb57", "7f74090", "7540dfb", "68d683c", "7270b67", "5166c8b", "ecda124", "339d430", "de0c013", "2ab1d79"]
+FIX_COMMITS = ["243874c", "428186b", "52f0108", "243864d", "8c765f6", "203eb57", "7f74090", "7540dfb", "68d683c", "7270b67", "5166c8b", "ecda124", "339d430", "de0c013", "2ab1d79", "1ca4c45", "85f8c0d"]
 
 NOT_APPLICABLE = {}
 
@@ -346,5 +346,66 @@ CHECKS = {
                       "writers, automatic and manual snapshots, rotation and both compactions; exploration of schedules",
         "level_note": "trusted: the crate's own readers used by L; interleavings finer than lock events are out of reach",
         "technique": "runtime monitoring: end-state differential + invariant checkers under delay injection at lock events",
+    },
+    "C10": {
+        "level": "exploration",
+        "rule": "histories leg: one history = real kyrodb_server (auth on, 2-3 tenants) driven over gRPC with 60-140 RPCs drawn from Insert, BulkInsert, "
+                "BulkLoadHnsw, Query, BulkQuery, Search, BulkSearch, UpdateMetadata (merge/replace), Delete, BatchDelete by ids and by filter, FlushHotTier, "
+                "with colliding local ids (1..6), identical vectors and queries across tenants (to provoke cache reuse), spoofed reserved keys in metadata, "
+                "namespaces, and generated AND/OR/NOT/IN/range filters over user and reserved keys; every response to tenant T is judged against T's own "
+                "reference model alone; /usage, unauthenticated/unknown/disabled keys are probed; at the end every tenant's census equals its model. "
+                "two-world leg: tenant A's identical workload is run alone and interleaved with tenant B writing identical/nearby vectors, A's observable "
+                "responses are compared. distinct_nontrivial = distinct histories",
+        "legs": [{"name": "histories", "argv": ["c10", "--leg", "histories"], "bin_args": {"server": "server"}, "shards": 16, "timeout_q": 1800},
+                 {"name": "two-world", "argv": ["c10", "--leg", "two-world"], "bin_args": {"server": "server"}, "shards": 8, "timeout_q": 1800}],
+        "assumptions": COMMON_ASSUME + ["process-wide aggregate health and metrics counters are outside the property (as stated)",
+                                         "timing side channels are not observed"],
+        "min_evaluations": 16,
+        "level_text": "black-box runtime monitoring of the real server binary over gRPC: per-tenant reference models (non-interference oracle) and a "
+                      "two-world differential; exploration",
+        "level_note": "trusted: the tonic client generated from the repository's proto and the per-tenant model",
+        "technique": "runtime monitoring: per-tenant reference-model monitor + two-world non-interference differential on the real binary",
+    },
+    "C15": {
+        "level": "exploration",
+        "rule": "one case = real kyrodb_server (auth on, metric cosine|euclidean|innerproduct, snapshot interval 7|1000, rotation 2 KiB|1 MiB) and 40-90 "
+                "generated requests: Insert x 12 vector classes (valid, empty, 4096/4097 dims, dim-1, dim+1, zeros, NaN, +inf, -inf, f32::MAX, subnormal) x "
+                "ids {live, 0, 2^32, 2^64-1}; BulkInsert/BulkLoadHnsw streams mixing acceptable and refusable items on live ids; Search/BulkSearch with k in "
+                "{0,1,10,1000,1001,2^32-1}, ef in {0,1,10000,10001,2^32-1}, 11 filter classes (empty oneof, NOT without operand, empty AND/OR, NOT nesting "
+                "depth 50/99/100/101/200, 100 000-value IN list), 10 000-byte namespaces; Query/BulkQuery with 0/3/10 000/10 001 ids; UpdateMetadata with "
+                "reserved keys and 5 MiB values; Delete; BatchDelete without criteria / 10 000 / 10 001 ids / out-of-range id / pathological filters; "
+                "CreateSnapshot with a foreign path; a 10 001-item stream in 10 % of the cases. Oracle: an answer arrives within 60 s, the process "
+                "stays alive, Health answers every 8 steps, what the validators must refuse is refused (non-finite on every write path), stream "
+                "counts add up, and the census (ids, vectors bit-exact, metadata) equals the model live, after a graceful restart and after a SIGKILL "
+                "restart. distinct_nontrivial = distinct cases",
+        "legs": [{"name": "request-fuzz", "argv": ["c15"], "bin_args": {"server": "server"}, "shards": 16, "timeout_q": 1800}],
+        "assumptions": COMMON_ASSUME + ["vector classes that the validators of the configured metric do not refuse (zeros, f32::MAX, subnormal under "
+                                         "euclidean) may be accepted; they are then tracked by the model and must survive like any document",
+                                         "malformed protobuf framing below the tonic client (raw HTTP/2 garbage) is not generated"],
+        "min_evaluations": 16,
+        "level_text": "black-box runtime monitoring of the real server binary: structured boundary-value request generator with a liveness/answer monitor "
+                      "and a census-vs-model oracle across graceful and SIGKILL restarts; exploration",
+        "level_note": "trusted: the tonic client generated from the repository's proto",
+        "technique": "runtime monitoring: structured request fuzzing with answer/liveness monitor + census differential on the real binary",
+    },
+    "C14": {
+        "level": "exploration",
+        "rule": "one case = real kyrodb_server (production profile on loopback, auth on, tenant 'alpha' with max_vectors in 2..8, a second tenant using "
+                "the same local ids, fsync full|data_only, snapshot interval 3..1000, rotation 512 B..1 MiB) driven over gRPC: (a) 25-60 sequential "
+                "write RPCs near the limit (insert new/overwrite, delete present/absent, BatchDelete with duplicates/absent ids/by filter, BulkInsert "
+                "and BulkLoadHnsw with duplicate ids inside the batch and rejected items, wrong-dimension and NaN writes); every single Insert of a "
+                "new id is an admission probe (must succeed iff live < limit); (b) 150 repetitions of one concurrent pair on one id from two "
+                "connections with randomised arrival order (insert||delete, overwrite||delete, bulk||delete, insert||insert); (c) a graceful and a "
+                "SIGKILL restart at quiescent points. At quiescent points (every 6 repetitions, phase ends, after restarts): BulkQuery census == "
+                "model and black-box count read-out: fresh probe ids are inserted until RESOURCE_EXHAUSTED, accepted must equal limit - live. "
+                "distinct_nontrivial = distinct cases",
+        "legs": [{"name": "quota", "argv": ["c14"], "bin_args": {"server": "server"}, "shards": 16, "timeout_q": 1800}],
+        "assumptions": COMMON_ASSUME + ["quota refusals of multi-document batches that would cross the limit are not judged", "free-running concurrency inside the server (no controlled schedules in a separate process); repetition with randomised arrival order",
+                                         "hook H2 (/verif/quota) was not needed: the black-box probe reads the count exactly"],
+        "min_evaluations": 8,
+        "level_text": "black-box runtime monitoring of the real server binary: exact read-out of the quota counter by probing the admission boundary, "
+                      "compared with a census at quiescent points of sequential, concurrent and restart workloads; exploration",
+        "level_note": "trusted: the tonic client generated from the repository's proto; concurrency windows are hit by repetition, not by control",
+        "technique": "runtime monitoring: black-box boundary probing + census differential on the real binary",
     },
 }
